@@ -29,8 +29,8 @@ ASSUMPTIONS = ["anchor = last node iff tagged scaffold '<' steps outnumber '>' s
 
 
 def plan(tier):
-    return {"cases": 640 if tier == "quick" else 2500, "shards": 16,
-            "shard_budget_s": 300 if tier == "quick" else 1800}
+    return {"cases": 640 if tier == "quick" else 5000, "shards": 16,
+            "shard_budget_s": 300 if tier == "quick" else 3300}
 
 
 def required(tier):
